@@ -459,9 +459,16 @@ func (h *simHist) run(t *rapid.T) error {
 		h.lastFailed = nil
 		// some duplicates of what was submitted before (same or earlier rounds)
 		if h.nextID > 0 && rapid.IntRange(0, 3).Draw(t, "dups") == 0 {
+			var dups []*simEntry
 			for k := rapid.IntRange(1, 3).Draw(t, "ndups"); k > 0; k-- {
 				id := rapid.IntRange(0, h.nextID-1).Draw(t, "dupID")
-				entries = append(entries, simMakeEntry(id, h.shapeOf(id)))
+				dups = append(dups, simMakeEntry(id, h.shapeOf(id)))
+			}
+			// the resubmissions arrive after this round's new entries, or before any of them
+			if rapid.Bool().Draw(t, "dupsFirst") {
+				entries = append(dups, entries...)
+			} else {
+				entries = append(entries, dups...)
 			}
 		}
 		var subFaults []simFault
